@@ -342,9 +342,12 @@ def run(facts, R):
                 ok_here = True
                 for f_ in facts_at(fb_, fbs_, facts, i_):
                     e_ = f_["expr"]
-                    if e_[0] == "field" and e_[1][0] == "arg" and e_[1][1] == 1 and e_[2] in cap_ and isinstance(f_["val"], bool):
+                    if e_[0] == "field" and e_[1][0] == "arg" and e_[1][1] == 1 and e_[2] in cap_:
                         cv_ = cap_[e_[2]]
-                        if cv_[0] == "const" and isinstance(cv_[1], (bool, int)) and bool(cv_[1]) != f_["val"]:
+                        if isinstance(f_["val"], bool) and cv_[0] == "const" and isinstance(cv_[1], (bool, int)) and bool(cv_[1]) != f_["val"]:
+                            ok_here = False
+                        # ... or a fieldless enum variant (`SliceWireForm::Aligned`) matched in the closure
+                        if isinstance(f_["val"], str) and cv_[0] == "agg" and cv_[2] is not None and not cv_[3] and cv_[2] != f_["val"]:
                             ok_here = False
                 if ok_here:
                     feasible.append((nm_, t_.get("span")))
